@@ -121,7 +121,9 @@ func e2eRunHeld(scn e2eScn, lim e2eLimits) (row e2eRow) {
 		row.Arity = append(row.Arity, len(table[i].handlerKinds()))
 	}
 	row.Twice = -1
-	row.WsAttInFlight = scn.Held == "poll-resp" && scn.Size == "binary"
+	// Since fix 63b366a the client pauses polling before the swap: no delivery of the old transport
+	// can be in flight while the websocket delivers, whatever the websocket carries.
+	row.WsAttInFlight = false
 	row.Emitted, row.Delivered, row.Errors, row.EmitPanic = []e2eEv{}, []e2eDel{}, []string{}, []string{}
 	rec := &e2eRecorder{errors: map[string]int{}}
 	rec.lastMove.Store(time.Now().UnixNano())
@@ -343,11 +345,18 @@ func e2eRunHeld(scn e2eScn, lim e2eLimits) (row e2eRow) {
 	}
 	// 4. the upgrade is let through
 	gatesOnce.Do(func() { close(wsGate.open) })
+	swapped := false
 	if s2c {
-		if !waitFor(upgraded, "upgrade") {
-			return
+		// A client that swaps while the poll response is still on the wire (code before fix
+		// 63b366a) completes the upgrade now: two transports will feed its parser.  The repaired
+		// client pauses polling and swaps only after the in-flight poll has returned, i.e. after
+		// the release below: then the scenario checks that nothing is lost across the late swap.
+		select {
+		case <-upgraded:
+			swapped = true
+			time.Sleep(100 * time.Millisecond) // the server switches when the UPGRADE packet reaches it
+		case <-time.After(400 * time.Millisecond):
 		}
-		time.Sleep(100 * time.Millisecond) // the server switches when the UPGRADE packet reaches it
 	} else {
 		time.Sleep(150 * time.Millisecond) // probe under way; the swap waits for the POST
 	}
@@ -356,8 +365,11 @@ func e2eRunHeld(scn e2eScn, lim e2eLimits) (row e2eRow) {
 	w2 := emitAll(plan2)
 	if s2c {
 		deadline := time.Now().Add(10 * time.Second)
-		for rec.count.Load() < before+1 && time.Now().Before(deadline) && rec.disc.Load() == 0 {
+		for swapped && rec.count.Load() < before+1 && time.Now().Before(deadline) && rec.disc.Load() == 0 {
 			runtime.Gosched() // no sleep: the release must fall inside the stream
+		}
+		if !swapped {
+			time.Sleep(20 * time.Millisecond) // phase 2 is being queued by the server meanwhile
 		}
 		// 6. ... and the held response lands while it does
 		close(hold.recvGate)
